@@ -6,7 +6,11 @@ import itertools
 import adapter
 import core
 import gen
+import nutree
 from nutree.typed_tree import ANY_KIND
+
+ANY_KINDS = [ANY_KIND] + ([nutree.ANY_KIND] if hasattr(nutree, "ANY_KIND") else [])
+_ANY_ROT = [0]
 
 LEVEL = "proof"
 TRUSTED = []
@@ -14,6 +18,20 @@ ASSUMPTIONS = ["node identities are unique within a tree (C01)"]
 # kind "c" is a SUPERSTRING of kind "a" (a test by `in` instead of `==` confuses them); absent kinds: unrelated, a superstring and a substring
 LONG = {"a": "kind-a", "b": "kind-b", "c": "kind-a-x", "d": ""}      # the empty string is a kind like any other
 KINDS = [None, "kind-a", "kind-b", "kind-a-x", "zzz", "kind-b-y", "kind", ""]
+
+
+
+def ids_owned(lst, ser):
+    """like adapter.ids; the result list is the CALLER's: an empty one is extended in place afterwards (an application that
+    accumulates results, `found = a.find_all(x); found += b.find_all(y)`), and no later result may show what a caller added"""
+    from nutree import Node as _Node
+
+    if any(not isinstance(x, _Node) for x in lst):
+        raise ValueError(f"a result list that an earlier caller had extended was handed out again: {lst!r}")
+    r = adapter.ids(lst, ser)
+    if isinstance(lst, list) and not lst:
+        lst.append("added by the caller")
+    return r
 
 
 def long_kinds(spec):
@@ -39,7 +57,12 @@ def g(f):
 def k_arg(k):
     # a query kind is an equal but DISTINCT string object (as one parsed from a file or typed by a user would be):
     # the property is about equality of kinds, not identity of str objects
-    return ANY_KIND if k is None else "".join(list(k))
+    if k is None:
+        # the any-kind marker, as the application may import it: from the module that defines it or - if the package exports one -
+        # from the package (both must mean the same)
+        _ANY_ROT[0] += 1
+        return ANY_KINDS[_ANY_ROT[0] % len(ANY_KINDS)]
+    return "".join(list(k))
 
 
 def impl_child(node, k, ser):
@@ -48,7 +71,7 @@ def impl_child(node, k, ser):
 
     ka = k_arg(k)
     return {
-        "children": g(lambda: adapter.ids(node.get_children(ka), ser)),
+        "children": g(lambda: ids_owned(node.get_children(ka), ser)),
         "first_child": g(lambda: i(node.first_child(ka))),
         "last_child": g(lambda: i(node.last_child(ka))),
         "has_children": g(lambda: node.has_children(ka)),
@@ -179,7 +202,7 @@ def check_tree(ctx, out, spec, tag, levelorder=False, tree=None):
     for k, (m, s, it_m, it_s) in zip(KINDS, resp["tree"]):
         ka = k_arg(k)
         impl = {
-            "children": g(lambda: adapter.ids(tree.system_root.get_children(ka), ser)),
+            "children": g(lambda: ids_owned(tree.system_root.get_children(ka), ser)),
             "first_child": g(lambda: (lambda n: None if n is None else ser.of(n))(tree.first_child(ka))),
             "last_child": g(lambda: (lambda n: None if n is None else ser.of(n))(tree.last_child(ka))),
             "has_children": g(lambda: tree.system_root.has_children(ka)),
